@@ -4,6 +4,7 @@ import (
 	"fmt"
 	"go/constant"
 	"go/token"
+	"os"
 	"sort"
 	"strings"
 
@@ -464,6 +465,62 @@ func (an *Analysis) BoolUnder(pr *Pruned, assume Assume, v ssa.Value, depth int)
 	}
 	if t, ok := pr.foldCond(v, 0); ok {
 		return t, true
+	}
+	// a local boolean helper (`withinWindow(…)`, `needsValidation(…)`): its value under the assumption is the common
+	// value of its live returns, the helper pruned under the same assumption (its parameters inherit the atoms of the
+	// arguments, see AtomOf)
+	if call, ok := v.(*ssa.Call); ok && assume != nil && depth < 4 {
+		if sc := call.Call.StaticCallee(); sc != nil && an.P.IsRepoFunc(sc) && len(sc.Blocks) > 0 && sc.Signature.Results().Len() == 1 && isBoolType(sc.Signature.Results().At(0).Type()) {
+			if an.helperDepth < 3 {
+				an.helperDepth++
+				sub := an.Prune(sc, assume)
+				an.helperDepth--
+				var acc, have, mixed bool
+				for _, b := range sc.Blocks {
+					if !sub.LiveBlock[b.Index] {
+						continue
+					}
+					r, ok := b.Instrs[len(b.Instrs)-1].(*ssa.Return)
+					if !ok || len(r.Results) != 1 {
+						continue
+					}
+					bv, k := an.BoolUnder(sub, assume, an.RetVal(r, 0), depth+1)
+					if os.Getenv("HCV_DEBUG") != "" {
+						fmt.Fprintf(os.Stderr, "helper %s ret %v -> %v %v\n", sc.Name(), an.RetVal(r, 0), bv, k)
+						if phi, ok := an.RetVal(r, 0).(*ssa.Phi); ok {
+							for _, e := range sub.LivePhiEdges(phi) {
+								b2, k2 := an.BoolUnder(sub, assume, e, depth+2)
+								a, neg, okA := an.AtomOf(e)
+								fmt.Fprintf(os.Stderr, "   edge %v -> %v %v atom=%v %v %v\n", e, b2, k2, a, neg, okA)
+								if u, ok := e.(*ssa.UnOp); ok {
+									if p2, ok := u.X.(*ssa.Phi); ok {
+										for _, e2 := range sub.LivePhiEdges(p2) {
+											a, neg, okA := an.AtomOf(e2)
+											fmt.Fprintf(os.Stderr, "      inner %v atom=%v %v %v\n", e2, a, neg, okA)
+										}
+									}
+								}
+							}
+						}
+					}
+					if !k {
+						mixed = true
+						break
+					}
+					if have && acc != bv {
+						mixed = true
+						break
+					}
+					acc, have = bv, true
+				}
+				if have && !mixed {
+					for k := range sub.Used {
+						pr.Used[k] = true
+					}
+					return acc, true
+				}
+			}
+		}
 	}
 	return false, false
 }
